@@ -889,7 +889,16 @@ func mentionsInnerBound(body, r *Term) bool {
 var variantTerm = map[*Term]bool{}
 var variantMu sync.Mutex
 
+// expandedFrom maps the finite expansion of a `forallx` clause to the quantified formula it came from (equivalent).
+var expandedFrom = map[*Term]*Term{}
+
 func stripVariants(t *Term) *Term {
+	variantMu.Lock()
+	q, isExp := expandedFrom[t]
+	variantMu.Unlock()
+	if isExp {
+		return q
+	}
 	switch t.Op {
 	case "and":
 		var keep []*Term
